@@ -10,9 +10,13 @@ CHECK = {
              "knot reproduction, betweenness, continuity, documented extrapolation, range/inverse-range "
              "monotone + both round trips. calc_mean_energy_loss/range_to_step run on real "
              "PhysicsParams+ParticleTrackView+PhysicsTrackView (own Process with dE/dx tables and range = "
-             "exact integral) over energies x steps in (0,range] x linear_loss_limit; MscStepToGeo/"
-             "MscStepFromGeo with the real UrbanMscHelper over energies x mfp tables x true-path x geo-path "
-             "lattices. Every table sits between sentinels in the shared reals pool and every object is "
+             "exact integral) over energies x steps in (0,range] (down to range*2^-53 and the smallest denormal) x "
+             "linear_loss_limit incl. 0 and 1e-300 x a 4-letter alphabet of (min_range, max_step_over_range, "
+             "min_eprime_over_e) x {electron in every material, positron with the tables rotated by one "
+             "material}; MscStepToGeo/MscStepFromGeo with the real UrbanMscHelper over energies x mfp tables "
+             "(a different scaled-xs table per material and particle) x true-path x geo-path lattices: "
+             "msc_mfp against E^2/table, MscStepFromGeo against the documented inverse formulas in long "
+             "double, the round trip true->geo->true and monotonicity in the geometrical step. Every table sits between sentinels in the shared reals pool and every object is "
              "built twice with different sentinels: a bitwise difference of any result = read outside the "
              "table. Tolerances come from a stated rounding model (harness header). non-trivial = a distinct "
              "grid/table configuration (case id) that executed; branch_tags count the code regimes reached."),
@@ -27,16 +31,22 @@ CHECK = {
         "differ by the table's discretisation error at the switch, which is by design (Geant4 does the same)",
         "loss == E at step == range is claimed when step*dE/dx >= linear_loss_limit*E (the documented "
         "condition of the early return)",
+        "MscStepFromGeo's value is compared with the documented inverse except where the formula is "
+        "ill-conditioned or undefined: alpha*w*g within 1e-9 of 1 (range-limited, x clamped to 1), "
+        "g/lambda within 1e-9 of 1, w <= 0 (alpha < 0 with |alpha|*lambda <= 1), and within the tolerance "
+        "of the min_step switch (tagged msc:fromgeo:formula-not-claimed); the [g, t] bounds are always checked",
         "lambda(start) == lambda(end) bitwise (alpha == 0 in MscStepToGeo's endpoint branch) is a "
         "measure-zero input and is skipped (tagged); MscStepFromGeo is only called with gstep <= geo",
     ],
     "bounds": {
         "quick": {"grids": 9, "knots": [2, 3, 4, 5, 8, 9, 17], "knot_ulps": 24, "bin_points": "8+3",
-                  "xs_shapes": 6, "range_shapes": 6, "eloss_shapes": 4, "linear_loss_limit": [0.001, 0.01, 0.5],
-                  "msc_mfp_tables": 4},
+                  "xs_shapes": 6, "range_shapes": 6, "eloss_shapes": 4,
+                  "linear_loss_limit": [0.0, 1e-300, 0.001, 0.01, 0.5], "physics_option_letters": 4,
+                  "particles": "e- x 4 materials, e+ x 1 material", "msc_mfp_tables": 4},
         "thorough": {"grids": 20, "knots": [2, 3, 4, 5, 6, 7, 8, 9, 17, 33, 85], "knot_ulps": 64,
                      "bin_points": "8+15", "xs_shapes": 6, "range_shapes": 6, "eloss_shapes": 4,
-                     "linear_loss_limit": [0.001, 0.01, 0.5, 1.0], "msc_mfp_tables": 4},
+                     "linear_loss_limit": [0.0, 1e-300, 0.001, 0.01, 0.5, 1.0], "physics_option_letters": 4,
+                     "particles": "e- and e+ x 4 materials", "msc_mfp_tables": 4},
     },
     "parts": [
         {"name": "tables", "harness": "c14_tables", "flavour": "rel",
